@@ -1,0 +1,46 @@
+//go:build verif
+
+package vgirpc
+
+import "github.com/apache/arrow-go/v18/arrow"
+
+// Verification hooks (build tag "verif"): read-only view of a method's
+// registration record for the scripted-handler correspondence (C04/C06/C37).
+// Add-only; nothing here is compiled into normal builds.
+
+// VerifC04Method is what the server recorded when a method was registered.
+type VerifC04Method struct {
+	Kind         string // "unary" | "producer" | "exchange" | "dynamic"
+	Void         bool   // unary registered without a result type
+	ResultSchema *arrow.Schema
+	OutputSchema *arrow.Schema
+	InputSchema  *arrow.Schema
+	HasHeader    bool
+	HeaderSchema *arrow.Schema
+}
+
+// VerifC04Method returns the registration record of name.
+func (s *Server) VerifC04Method(name string) (VerifC04Method, bool) {
+	info, ok := s.methods[name]
+	if !ok {
+		return VerifC04Method{}, false
+	}
+	kind := "unary"
+	switch info.Type {
+	case MethodProducer:
+		kind = "producer"
+	case MethodExchange:
+		kind = "exchange"
+	case MethodDynamic:
+		kind = "dynamic"
+	}
+	return VerifC04Method{
+		Kind:         kind,
+		Void:         info.Type == MethodUnary && info.ResultType == nil,
+		ResultSchema: info.ResultSchema,
+		OutputSchema: info.OutputSchema,
+		InputSchema:  info.InputSchema,
+		HasHeader:    info.HasHeader,
+		HeaderSchema: info.HeaderSchema,
+	}, true
+}
